@@ -11,12 +11,13 @@ import (
 	"github.com/tidwall/tile38/verif/harness/t38"
 )
 
-// nanProbe is a shrunk history found by the thorough tier: 67 objects around
-// the north pole, then a circle object whose disc touches the pole (NaN box),
-// then one INTERSECTS query that loses the circle. (A single-object collection
-// does not show it: the NaN box must sit in a tree with inner nodes.)
+// nanCorruption is a history found by the thorough tier and shrunk (under the
+// pre-fix code) to 140 steps: objects around the north pole, among them circle
+// objects whose disc touches the pole (NaN vertices), two deletes, and one
+// INTERSECTS query. With a NaN box in the R-tree the deletes fail silently and
+// the query returns a deleted id.
 //
-//go:embed testdata/nan_probe.json
+//go:embed testdata/nan_corruption.json
 var nanProbeJSON []byte
 
 type stopFailer struct{ msg string }
@@ -71,8 +72,6 @@ func TestC02_KnownProbes(t *testing.T) {
 		{findingClipSimple, "get-point-clipby", []string{"POINT", "0.5", "0"}, []string{"GET", theKey, "p", "CLIPBY", "TILE", "1", "1", "1"}},
 		// a point inside a stored circle's disc but outside the box of its 64-gon
 		{findingCircleBox, "stored-circle-east-rim", []string{"OBJECT", `{"type":"Feature","geometry":{"type":"Point","coordinates":[10,60]},"properties":{"type":"Circle","radius":100000,"radius_units":"m"}}`}, []string{"POINT", "60.01225974875774", "11.798864868826337"}},
-		// a circle whose northern extreme touches the pole: NaN box (the 64-gon's latitudes are NaN)
-		{findingNaN, "circle-touching-pole", []string{"OBJECT", `{"type":"Feature","geometry":{"type":"Point","coordinates":[-4.5,89.79999542236327]},"properties":{"type":"Circle","radius":22239.51657838524,"radius_units":"m"}}`}, []string{"BOUNDS", "-0.23974609374999997", "-179.99998474121094", "-0.2397460788488388", "0.790953516960144"}},
 		// a stored circle object against a rectangle around it
 		{findingCircleObj, "stored-circle", []string{"OBJECT", `{"type":"Feature","geometry":{"type":"Point","coordinates":[10,60]},"properties":{"type":"Circle","radius":1000,"radius_units":"m"}}`}, []string{"BOUNDS", "59", "9", "61", "11"}},
 		// disc over the pole
@@ -140,6 +139,7 @@ func TestC02_KnownProbes(t *testing.T) {
 			}
 		}
 	}
+	// index-corruption regression (deleted ids must not be returned)
 	var nanHist history
 	if err := json.Unmarshal(nanProbeJSON, &nanHist); err != nil {
 		t.Fatal(err)
@@ -148,7 +148,7 @@ func TestC02_KnownProbes(t *testing.T) {
 		c.Case()
 		nanHist.Level = level
 		if msg := historyFails(nanHist, conn); msg != "" {
-			reproduced[findingNaN] = append(reproduced[findingNaN], "nan-history/"+level)
+			reproduced[findingNaN] = append(reproduced[findingNaN], "nan-history/"+level+": "+msg)
 			c.Label("reproduced:nan-history")
 			if firstReplay[findingNaN] == nil {
 				h := nanHist
@@ -161,7 +161,7 @@ func TestC02_KnownProbes(t *testing.T) {
 		findingCircle:     "a point inside a CIRCLE's haversine disc but outside the bounding box of its 64-gon is matched by TEST / the predicate and missed by WITHIN/INTERSECTS: ",
 		findingCircleObj:  "a stored circle object (Point feature with properties.type=Circle) satisfies TEST ... WITHIN/INTERSECTS but is never returned by a search (object.IsSpatial() is false for *geojson.Circle, so it is not put into the R-tree): ",
 		findingCircleBox:  "a stored circle object is indexed by the box of its 64-gon, so a query point inside its haversine disc but outside that box satisfies TEST ... INTERSECTS and is missed by the search: ",
-		findingNaN:        "a circle object whose disc touches a pole gets a NaN box (math.Asin(1.0000000000000002) in geo.DestinationPoint): TEST evaluates garbage for it (INTERSECTS a rectangle on the equator = 1), the search cannot return it, and its NaN box corrupts the R-tree for other objects (later deletes fail, deleted ids are returned): ",
+		findingNaN:        "a circle object whose disc touches a pole has NaN vertices (math.Asin(1.0000000000000002) in geo.DestinationPoint); its NaN box corrupts the R-tree for other objects (deletes fail silently, deleted ids are returned, live objects are missed): ",
 		findingEmpty:      "an empty collection object is WITHIN any CIRCLE according to TEST / the predicate (vacuous truth in Circle.Contains) and is never returned by WITHIN (empty geometries are not indexed): ",
 	}
 	for _, fid := range append([]string{findingClipSimple}, allFindings...) {
